@@ -11,14 +11,15 @@ LEVEL = 'other'
 EXPLANATION = ('llsym runs the real mj_constraintUpdate_impl (the function every solver ends with) in real-algebraic mode for each row type and proves for ALL residuals and parameters: '
                'friction-loss forces satisfy |f| <= frictionloss (and equal +-frictionloss exactly in the linear zones), limit / frictionless / pyramidal forces are >= 0, elliptic contact forces have '
                'normal component >= 0 and friction-weighted tangential norm bounded by it (on the cone boundary in the middle zone, zero in the top zone); the bottom zone is entered only when '
-               'mu*N + T <= 0. Also mju_decodePyramid(mju_encodePyramid(f)) = f for forces inside the cone, pyramid edge forces >= 0, decode gives normal = sum of edges.')
-BOUNDS = {'quick': {'rows': 'friction, limit, pyramidal, elliptic condim 1, 3, 4', 'pyramid': 'condim 1, 3, 4'}, 'thorough': {'rows': '+ elliptic condim 6', 'pyramid': '+ condim 6'}}
-OUTSIDE = 'qfrc_constraint = J^T efc_force (sparse/dense mulJacTVec), mj_contactForce (adhesion offset), forces produced by solver iterations other than through this function.'
+               'mu*N + T <= 0. Also mju_decodePyramid(mju_encodePyramid(f)) = f for forces inside the cone, pyramid edge forces >= 0, decode gives normal = sum of edges.'
+               ' One Gauss-Seidel sweep of the real solPGS over one island (mj_solPGS_island, numeric callees stubbed with solver-chosen values): each scalar row ends as the projection of old force - residual / diagonal onto the admissible set of its row type.')
+BOUNDS = {'quick': {'rows': 'friction, limit, pyramidal, elliptic condim 1, 3, 4', 'pyramid': 'condim 1, 3, 4', 'PGS sweep': 'one iteration, scalar rows, two interleaved islands of 5-6 global rows (layouts a, b)'}, 'thorough': {'rows': '+ elliptic condim 6', 'pyramid': '+ condim 6'}}
+OUTSIDE = 'qfrc_constraint = J^T efc_force (sparse/dense mulJacTVec), mj_contactForce (adhesion offset), forces produced by solver iterations other than through this function and one PGS sweep over scalar rows (elliptic blocks of PGS, Nesterov extrapolation beyond the first iteration, CG / Newton iterations, convergence).'
 ASSUMPTIONS = cu.__dict__.get('ASSUMPTIONS', ['D > 0, R > 0 with D*R = 1, floss >= 0, mu > 0, friction > 0', 'rows of one elliptic contact satisfy D_j mu^2 = D_0 friction_{j-1}^2 (mj_makeImpedance)', 'real-number semantics'])
 BUDGET = {'quick': 600, 'thorough': 2400}
 
 
-def prepare(tier): cu.prepare(); misc()
+def prepare(tier): cu.prepare(); misc(); pgs_mod(); pgs_so()
 
 
 _c = {}
@@ -87,11 +88,103 @@ def unit_pyramid(tier, dim):
     return ck
 
 
+PGS_TUS = ['src/engine/engine_solver.c', 'src/engine/engine_util_blas.c', 'src/engine/engine_util_misc.c', 'src/engine/engine_core_util.c']
+PGS_REDIRECT = ['ARdiaginv', 'dualState', 'residual', 'costChange', 'dualStateChange', 'saveStats']
+PGS_C = r"""
+/* PGS sweep replay: the numeric callees are stubs that hand back solver-chosen values (inverse diagonal per island row, residual per global row) */
+static double *vf11_arinv = 0, *vf11_res = 0;
+void vf11_set(double* arinv, double* res) { vf11_arinv = arinv; vf11_res = res; }
+void vfstub_ARdiaginv(const void* m, const void* d, double* res, int nefc, const int* efclist, int flg) { for (int c = 0; c < nefc; c++) res[c] = vf11_arinv[c]; }
+void vfstub_dualState(const void* d, int* state, int ne, int nf, int nefc, const int* efclist) {}
+void vfstub_residual(const void* m, const void* d, double* res, int i, int dim, int flg) { res[0] = vf11_res[i]; }
+double vfstub_costChange(const double* A, double* force, const double* oldforce, const double* res, int dim) { return 0; }
+int vfstub_dualStateChange(const void* d, int* state, int* oldstate, int ne, int nf, int nefc, const int* efclist, int* nchange) { *nchange = 0; return 0; }
+void vfstub_saveStats(const void* m, void* d, int island, int iter, double improvement, double gradient, double lineslope, int nactive, int nchange, int neval, int nupdate) {}
+"""
+
+
+def pgs_mod():
+    if 'pm' not in _c: _c['pm'] = ir.load(PGS_TUS)
+    return _c['pm']
+
+
+def pgs_so():
+    if 'pso' not in _c:
+        _c['pso'] = build.native_lib(['src/engine/engine_solver.c'], ['src/engine/engine_util_blas.c', 'src/engine/engine_util_misc.c', 'src/engine/engine_core_util.c', 'src/engine/engine_util_errmem.c', 'src/engine/engine_memory.c',
+                                                                     'src/engine/engine_util_sparse.c'], name='solver_pgs', extra_c=PGS_C, redirect=PGS_REDIRECT)
+    return _c['pso']
+
+
+def unit_pgs_sweep(tier, layout, island):
+    """one Gauss-Seidel sweep of the real solPGS over the scalar rows of ONE ISLAND (mj_solPGS_island; rows addressed through map_iefc2efc, counts island_ne / island_nf / island_nefc): every row of the island
+    ends in its admissible set - equality free, friction loss in [-floss, floss], limit / contact >= 0 - as the projection of (old force - residual * inverse diagonal), and rows of other islands are not touched"""
+    from vf.irparse import FpT, IntT
+    from props import C06
+    ck = Checker('pgs_%s_island%d' % (layout, island), tier, timeout_s=120, semantics='real')
+    KC = build.enum_values('mjCNSTR_'); KJ = build.enum_values('mjJAC_')
+    # global rows: type per row (e equality, f friction loss, l limit); islands: list of global rows per island, ordered e, f, l inside the island
+    LAY = {'a': ('efflll', [[0, 1, 3], [2, 4, 5]]), 'b': ('eefll', [[1, 4], [0, 2, 3]]), 'c': ('fflll', [[1, 2, 4], [0, 3]])}
+    types, isl = LAY[layout]; nefc = len(types); rows = isl[island]; n = len(rows)
+    tyv = {'e': KC['mjCNSTR_EQUALITY'], 'f': KC['mjCNSTR_FRICTION_DOF'], 'l': KC['mjCNSTR_LIMIT_JOINT']}
+    L = build.Layout(); w = W.World('real')
+    M, _ = W.full_struct(w, L, 'mjModel_', 'MJMODEL_POINTERS', {'nv': 2}, 'm', default_size=0)
+    M.set('opt.disableflags', 0); M.set('opt.enableflags', 0); M.set('opt.jacobian', KJ['mjJAC_DENSE']); M.o.put(M.off('stat.meaninertia'), 'f64', 1.0); M.o.put(M.off('opt.tolerance'), 'f64', 0.0)
+    D, _ = W.full_struct(w, L, 'mjData_', 'MJDATA_POINTERS', {'nv': 2, 'nefc': nefc, 'nisland': len(isl)}, 'd', default_size=0)
+    D.arr('efc_force', 'f64', nefc, name='efc_force'); D.arr('efc_frictionloss', 'f64', nefc, name='efc_frictionloss')
+    D.arr('efc_type', 'i32', nefc, [tyv[t] for t in types]); D.arr('efc_id', 'i32', nefc, [0] * nefc); D.arr('efc_state', 'i32', nefc, [0] * nefc)
+    flat = [r for g in isl for r in g]; adr = [sum(len(g) for g in isl[:k]) for k in range(len(isl))]
+    D.arr('map_iefc2efc', 'i32', nefc, flat); D.arr('island_iefcadr', 'i32', len(isl), adr); D.arr('island_nefc', 'i32', len(isl), [len(g) for g in isl])
+    D.arr('island_ne', 'i32', len(isl), [sum(1 for r in g if types[r] == 'e') for g in isl]); D.arr('island_nf', 'i32', len(isl), [sum(1 for r in g if types[r] == 'f') for g in isl])
+    D.set('nefc', nefc); D.set('nisland', len(isl)); D.set('ne', types.count('e')); D.set('nf', types.count('f'))
+    ar = w.obj('arena', 8192).zeros(); D.o.put(D.off('arena'), 'ptr', (ar, 0)); D.set('narena', 8192)
+    aio, arinv = w.arr('vfarinv', 'f64', n); reo, resv = w.arr('vfres', 'f64', nefc)
+    f0 = D.arrays['efc_force'][3]; fl = D.arrays['efc_frictionloss'][3]
+    pre = [x > 0 for x in arinv] + [x >= 0 for x in fl]
+    P8 = lambda p, k: llsym.Ptr(p.obj, p.off + 8 * k)
+    def alloc(ex, st, args, ins): return st.alloc(ex.as_int(args[1]), ('stack', len(st.objs)))
+    noop = lambda ex, st, args, ins: None
+    def s_ardiag(ex, st, args, ins):
+        for c in range(ex.as_int(args[3])): ex.store(st, P8(args[2], c), FpT('double'), arinv[c])
+    def s_res(ex, st, args, ins):
+        ex.store(st, args[2], FpT('double'), resv[ex.as_int(args[3])])
+    def s_dsc(ex, st, args, ins):
+        ex.store(st, args[7], IntT(32), z3.BitVecVal(0, 32)); return z3.BitVecVal(0, 32)
+    ex = llsym.Exec(pgs_mod(), fpmode='real', loop_bound=4 * nefc + 16,
+                    stubs={'mj_stackAllocInfo': alloc, 'mj_markStack': noop, 'mj_freeStack': noop, 'ARdiaginv': s_ardiag, 'dualState': noop, 'residual': s_res, 'costChange': lambda ex, st, a, i: z3.RealVal(0),
+                           'dualStateChange': s_dsc, 'saveStats': noop})
+    st = w.to_state(ex); st.pc += pre
+    I = lambda v: z3.BitVecVal(v, 32)
+    res = ex.run('@mj_solPGS_island', [w.P(M.o), w.P(D.o), I(island), I(1)], st); ck.note_results(ex, res)
+    dec = lambda mdl: {'row types': types, 'islands': isl, 'island': island, 'efc_force': [str(W.evalnum(mdl, x)) for x in f0], 'frictionloss': [str(W.evalnum(mdl, x)) for x in fl],
+                       'residual': [str(W.evalnum(mdl, x)) for x in resv], 'ARinv': [str(W.evalnum(mdl, x)) for x in arinv]}
+    nret = 0
+    for r in res:
+        if r.kind != 'return': continue
+        nret += 1
+        f1 = [ex.load(r.state, w.P(D.arrays['efc_force'][0], 8 * i), FpT('double')) for i in range(nefc)]
+        seq = [('vf11_set', [('ptr', (aio, 0)), ('ptr', (reo, 0))], 'void'), ('mj_solPGS_island', [('ptr', (M.o, 0)), ('ptr', (D.o, 0)), ('i32', island), ('i32', 1)], 'void')]
+        rp = C06.seq_replay(w, seq, [('efc_force%d' % i, D.arrays['efc_force'][0], 8 * i, 'f64', f1[i]) for i in range(nefc)], so_fn=pgs_so)
+        for c, i in enumerate(rows):
+            u = f0[i] - resv[i] * arinv[c]
+            if types[i] == 'e': want = u; what = 'equality row %d: unconstrained minimiser' % i
+            elif types[i] == 'f': want = z3.If(u < -fl[i], -fl[i], z3.If(u > fl[i], fl[i], u)); what = 'friction-loss row %d: projected onto [-floss, floss]' % i
+            else: want = z3.If(u < 0, z3.RealVal(0), u); what = 'limit row %d: projected onto [0, inf)' % i
+            ck.prove('island %d, %s (old force - residual / diagonal, then projection onto the set of ITS row type)' % (island, what), r.state.pc, f1[i] == want, site='solPGS:projection', decode=dec, replay=rp)
+        other = [i for i in range(nefc) if i not in rows]
+        if other: ck.prove('rows of other islands %s keep their force' % other, r.state.pc, z3.And(*[f1[i] == f0[i] for i in other]), site='solPGS:other-islands', decode=dec, replay=rp)
+    if nret == 0: ck.error('no returning path')
+    ck.paths['pgs'] = nret
+    ck.reach('positive diagonal, non-negative friction loss', pre)
+    ck.memory_obligations(res, decode=dec)
+    return ck
+
+
 def units(tier):
     u = [('admissible_fric', 'unit_rows', {'rows': [('fric', 0)], 'tag': 'fric'}), ('admissible_limit', 'unit_rows', {'rows': [('limit', 0)], 'tag': 'limit'}),
          ('admissible_pyr', 'unit_rows', {'rows': [('pyr', 0)], 'tag': 'pyr'}), ('admissible_ell1', 'unit_rows', {'rows': [('ell', 1)], 'tag': 'ell1'}),
          ('admissible_ell3', 'unit_rows', {'rows': [('ell', 3)], 'tag': 'ell3'}), ('admissible_ell4', 'unit_rows', {'rows': [('ell', 4)], 'tag': 'ell4'}),
          ('admissible_mixed', 'unit_rows', {'rows': [('eq', 0), ('fric', 0), ('limit', 0), ('ell', 3)], 'tag': 'mixed'})]
     for d in ([1, 3, 4] if tier == 'quick' else [1, 3, 4, 6]): u.append(('pyramid_dim%d' % d, 'unit_pyramid', {'dim': d}))
+    for lay_, k in ([('a', 1), ('b', 0)] if tier == 'quick' else [('a', 0), ('a', 1), ('b', 0), ('b', 1), ('c', 0), ('c', 1)]): u.append(('pgs_%s_island%d' % (lay_, k), 'unit_pgs_sweep', {'layout': lay_, 'island': k}))
     if tier == 'thorough': u.append(('admissible_ell6', 'unit_rows', {'rows': [('ell', 6)], 'tag': 'ell6'}))
     return u
